@@ -14,10 +14,20 @@ Checked after all threads finished and a final sequential drain:  delivered (+) 
 multisets (no loss, no duplicate), per (publishing thread, channel) order preserved within each consumer,
 every delivery matches its subscription's pattern.
 
-DESIGN planned a z3 transition-relation encoding generated from the module's AST (Engine B-sched).  It was
-replaced by this schedule-symbolic execution of the real code: it needs no heap model and no idiom table, is
-tied to the source by construction, and replays are the same run with the schedule fixed.  What is lost: the
-solver does not reason about the schedule space symbolically (no pruning of equivalent interleavings).
+C14.B (Engine B-sched, vt/z3enc/sched.py) is the z3 transition-relation encoding DESIGN planned: publish(), the
+defaultdict factory, subscribe() and InMemorySubscription.__iter__ are compiled from the module's AST into a CFG of
+line events over a small explicit heap; the schedule is a free z3 variable per step, so the solver decides the
+property over ALL interleavings at line granularity within the step bound (no preemption bound), after an
+unwinding query showed that every schedule finishes within the bound.  On every run the encoding is validated
+against the real transport (5 fixed scheduling policies per scenario: the model driven by the real run's schedule
+must show the same (thread, line) trace, deliveries and remaining queue contents), and a z3 counterexample is
+replayed on the real threads by feeding its schedule to the line scheduler.  A construct outside the translator's
+subset, or a conformance mismatch, makes the obligation inconclusive.
+
+C14.S (the first built) executes the real code under every schedule with at most P preemptions, the schedule
+integers being CrossHair/z3 variables; it needs no heap model and serves as a second, independent decision
+procedure on the same scenarios (each leaf is a native run: the solver only supplies and exhausts the schedule
+space -- stated as such).
 """
 from __future__ import annotations
 
@@ -32,7 +42,7 @@ ASSUMPTIONS = [
     "the C-level part of defaultdict.__missing__ (store after the factory returned) is atomic, which holds under the GIL",
     "a thread parked on `with <lock>:` while the lock is held is treated as not enabled",
 ]
-OUTSIDE = ["bytecode-level preemption finer than line events", "the callback thread of subscribe(callback=...)", "__aiter__", "more than P preemptions (quick 2, thorough 3)"]
+OUTSIDE = ["bytecode-level preemption finer than line events", "the callback thread of subscribe(callback=...)", "__aiter__", "C14.S: more than P preemptions (quick 2, thorough 3); C14.B: runs longer than the step bound K (excluded by the unwinding query), scenarios other than the listed ones"]
 FILES = ("semantiva/execution/transport/in_memory.py",)
 
 # scenario -> list of thread programs; ("pub", channel, [payloads]) | ("sub", pattern)
@@ -91,6 +101,8 @@ def run_scenario(name: str, choose, record: Dict[str, Any]):
         if w.error is not None:
             return Fail("C14:%s:thread-raised:%s" % (name, type(w.error).__name__), "thread %d raised %r under schedule %r" % (w.tid, w.error, sched))
     drained = [m.data for m in tr.subscribe("*")]
+    record["delivered"] = {i: list(v) for i, v in delivered.items()}
+    record["drained"] = list(drained)
     got = [d for lst in delivered.values() for d in lst] + drained
     if sorted(got) != sorted(published):
         lost = [p for p in published if got.count(p) < published.count(p)]
@@ -188,9 +200,202 @@ def _steps(name: str) -> int:
     return max(a, len(rec2["schedule"])) + 6
 
 
+
+# ------------------------------------------------------------------------------------------------------------
+# Engine B-sched: z3 over ALL interleavings of the transition relation generated from the module's AST
+# ------------------------------------------------------------------------------------------------------------
+def _model_threads(name: str):
+    """scenario -> (threads for the encoding, channel universe, pre-existing channels, message ids -> data tuple)."""
+    prog = SCENARIOS[name]
+    channels: List[str] = []
+    for p in prog:
+        if p[0] == "pub" and p[1] not in channels:
+            channels.append(p[1])
+    pre = [c for c in channels if c == "old" and _preexists_after_setup()]
+    channels = pre + [c for c in channels if c not in pre]
+    threads, ids = [], {}
+    for i, p in enumerate(prog):
+        if p[0] == "pub":
+            calls = []
+            for j, payload in enumerate(p[2]):
+                mid = 10 * i + j + 1
+                ids[mid] = (i, p[1], payload)
+                calls.append((channels.index(p[1]), mid))
+            threads.append(("pub", calls))
+        else:
+            threads.append(("sub", p[1]))
+    return threads, channels, pre, ids
+
+
+def _preexists_after_setup() -> bool:
+    """run_scenario publishes to 'old' and drains it before the threads start: does the channel entry survive that on
+    the current source?  (read off the real transport, so the model's initial heap is the real one)"""
+    from semantiva.context_processors import ContextType
+    from semantiva.execution.transport.in_memory import InMemorySemantivaTransport
+
+    tr = InMemorySemantivaTransport()
+    tr.publish("old", ("pre", "old", "x"), ContextType({}))
+    list(tr.subscribe("old"))
+    return "old" in tr._queues
+
+
+def _real_outcome(rec, ids, channels):
+    inv = {v: k for k, v in ids.items()}
+    logs = {i: [inv[d] for d in lst] for i, lst in rec["delivered"].items()}
+    rem = {}
+    for d in rec["drained"]:
+        rem.setdefault(d[1], []).append(inv[d])
+    return logs, rem
+
+
+def _encode(name: str, K: int):
+    import semantiva.execution.transport.in_memory as im
+    from vt.z3enc import sched as S
+
+    threads, channels, pre, ids = _model_threads(name)
+    nmsg = len(ids)
+    facts = S.ModuleFacts(im.__file__)
+    B = S.Bounds(len(channels), len(pre) + nmsg + 1, len(facts.instance_locks) + len(pre) + nmsg + 1, nmsg + 1, nmsg + 1)
+    enc = S.Encoding(facts, threads, channels, pre, B)
+    enc.unroll(K)
+    return enc, ids, channels
+
+
+CONF_POLICIES = {
+    "lowest-enabled": lambda en, k: en[0],
+    "highest-enabled": lambda en, k: en[-1],
+    "round-robin": lambda en, k: en[k % len(en)],
+    "switch-every-2": lambda en, k: en[(k // 2) % len(en)],
+    "switch-every-3": lambda en, k: en[(k // 3) % len(en)],
+}
+
+
+def _make_b(param):
+    name = param
+
+    def run(known_fps):
+        import time
+
+        import z3
+
+        from vt.linesched import HarnessStall
+        from vt.z3enc import sched as S
+
+        t0 = time.perf_counter()
+        res: Dict[str, Any] = {"status": "inconclusive", "queries": 0, "detail": "", "paths": 0, "sample": None, "conformance_runs": 0}
+        # 1. real runs under fixed policies: step bound and conformance material
+        reals = []
+        try:
+            for pn, pol in CONF_POLICIES.items():
+                rec: Dict[str, Any] = {}
+                v = run_scenario(name, pol, rec)
+                if v is not True:
+                    # the real code already fails under a fixed schedule: report it through the ordinary replay path
+                    res.update(status="refuted", counterexample={"scenario": name, "schedule": rec.get("schedule")}, fingerprint=v.fingerprint, detail="fixed policy %s: %s" % (pn, v.detail))
+                    return res
+                reals.append((pn, rec))
+        except HarnessStall as e:
+            res["detail"] = "line scheduler stalled on the real code (%s): no conformance material" % e
+            return res
+        K = max(len(r["schedule"]) for _, r in reals) + 4
+        # 2. translate + unroll (fail closed)
+        try:
+            enc, ids, channels = _encode(name, K)
+            # 3. conformance: the model, driven by the real run's schedule, must show the same (thread, line) trace and outcome
+            for pn, rec in reals:
+                sch = rec["schedule"]
+                cons = [enc.sched[k] == sch[k] for k in range(len(sch))] + [enc.all_done(len(sch))]
+                r, m = enc.check(*cons)
+                if r != "sat":
+                    res["detail"] = "conformance: the model cannot follow the real schedule of policy %s (%s): %r / real lines %r" % (pn, r, sch, rec["lines"])
+                    return res
+                tr = enc.trace_of(m)
+                logs, rem = _real_outcome(rec, ids, channels)
+                same = (tr["lines"] == [tuple(x) for x in rec["lines"]] and tr["logs"] == logs and {k: v for k, v in tr["remaining"].items() if v} == rem and not tr["errors"])
+                if not same:
+                    res["detail"] = "conformance: model and real transport disagree under policy %s: model %r vs real lines %r logs %r remaining %r" % (pn, tr, rec["lines"], logs, rem)
+                    return res
+                res["conformance_runs"] += 1
+            # 4. unwinding / capacity (raise the bound while schedules exist that are not finished)
+            for _ in range(6):
+                r, m = enc.check(z3.Not(enc.all_done()), z3.Not(z3.Or(*enc.deadlock)), por=True)
+                if r == "unsat":
+                    break
+                if r != "sat":
+                    res["detail"] = "unwinding query: %s" % r
+                    return res
+                K += 6
+                enc, ids, channels = _encode(name, K)
+            else:
+                res["detail"] = "unwinding assertion still violated at K=%d" % K
+                return res
+            # 5. the property, over all interleavings
+            terms = enc.violation_terms()
+            cap = enc.S[enc.K]["ovf"] == 1  # capacity: a bound of the heap model (deques, locks, buffer, log) exceeded
+            r, m = enc.check(z3.Or(cap, *terms.values()), por=True)
+            if r == "sat" and z3.is_true(m.eval(cap, model_completion=True)):
+                res["detail"] = "capacity: a bound of the heap model can be exceeded (schedule %r)" % (enc.trace_of(m)["schedule"],)
+                return res
+        except S.Unsupported as e:
+            res["detail"] = "translator: construct outside the supported subset: %s" % e
+            res["queries"] = 0
+            return res
+        res["queries"] = enc.queries
+        res["solver_queries"] = enc.queries
+        res["solver_time_s"] = round(enc.solver_time, 2)
+        res["K"] = K
+        res["wall_s"] = round(time.perf_counter() - t0, 2)
+        res["functions_entered"] = {"semantiva/execution/transport/in_memory.py:InMemorySemantivaTransport.publish": 1, "semantiva/execution/transport/in_memory.py:InMemorySubscription.__iter__": 1, "semantiva/execution/transport/in_memory.py:InMemorySemantivaTransport.__init__": 1}
+        if r == "unsat":
+            res["status"] = "discharged"
+            res["nontrivial_queries"] = enc.queries
+            r2, m2 = enc.check(enc.all_done(), por=True)  # reachability witness: some schedule finishes (vacuity guard)
+            if r2 != "sat":
+                res["status"] = "inconclusive"
+                res["detail"] = "vacuous: no schedule reaches the final state"
+                return res
+            w = enc.trace_of(m2)
+            res["sample"] = {"scenario": name, "K": K, "one_schedule": w["schedule"], "lines": w["lines"], "delivered": w["logs"], "remaining": w["remaining"]}
+            return res
+        if r != "sat":
+            res["detail"] = "property query: %s" % r
+            return res
+        tr = enc.trace_of(m)
+        which = [k for k, v in terms.items() if z3.is_true(m.eval(v, model_completion=True))]
+        res.update(status="refuted", counterexample={"scenario": name, "schedule": tr["schedule"]}, fingerprint="C14:%s:%s" % (name, which[0] if which else "?"),
+                   detail="z3 schedule %r -> model outcome %r (violated: %s)" % (tr["schedule"], {k: tr[k] for k in ("logs", "remaining", "errors", "done")}, which))
+        return res
+
+    return run
+
+
+def _replay_b(param, a):
+    name = param
+    sch = list(a.get("schedule") or [])
+    bad = {"n": 0}
+
+    def choose(en, k):
+        if k < len(sch) and sch[k] in en:
+            return sch[k]
+        if k < len(sch):
+            bad["n"] += 1
+        return en[0]
+
+    rec: Dict[str, Any] = {}
+    try:
+        v = run_scenario(name, choose, rec)
+    except Exception as e:  # noqa: BLE001
+        return {"reproduced": False, "fingerprint": "", "detail": "replay of the model schedule stalled: %r" % (e,)}
+    if v is True:
+        return {"reproduced": False, "fingerprint": "", "detail": "exactly-once delivery on the real code under the model's schedule %r (%d steps not enabled as in the model); real line trace %r" % (sch, bad["n"], rec.get("lines"))}
+    return {"reproduced": True, "fingerprint": v.fingerprint, "detail": v.detail + " | line trace (thread, line): %r" % (rec.get("lines"),)}
+
+
 def obligations(tier: str) -> List[Ob]:
     P = 2 if tier == "quick" else 3
     names = list(SCENARIOS) if tier == "thorough" else ["2pub-new-channel", "2pub-existing-channel", "pub-new+sub-wildcard", "pub-existing+sub-exact", "2pub+sub-wildcard", "pub-other+sub-exact"]
+    two_thread = [nm for nm in names if len(SCENARIOS[nm]) == 2]
+    bnames = list(names) if tier == "thorough" else two_thread + ["2pub-new-channel-2msgs"]
     params = []
     for nm in names:
         st = _steps(nm)
@@ -202,9 +407,15 @@ def obligations(tier: str) -> List[Ob]:
         Ob("C14.S", _make, _replay, params=params, budget=1500 if tier == "quick" else 6000, per_path=60,
            bound="per scenario (2-3 publishers with 1-2 messages, 0-2 concurrent subscribers, new and existing channels, exact and wildcard patterns): initial thread and up to P=%d preemptions (global step index and target thread) symbolic; step bound measured from the source + 6" % P,
            targets=["semantiva/execution/transport/in_memory.py:InMemorySemantivaTransport.publish", "semantiva/execution/transport/in_memory.py:InMemorySubscription.__iter__", "semantiva/execution/transport/in_memory.py:InMemorySemantivaTransport.__init__"]),
+        Ob("C14.B", _make_b, _replay_b, params=bnames, budget=3000, engine="B",
+           bound="z3 over ALL interleavings at line granularity (no preemption bound) of the transition relation compiled from in_memory.py's AST; step bound K = longest real run + 4, raised until the unwinding query is unsat; heap bounds (deques, locks, buffer, log) sized from the scenario and checked by a capacity query; 8-bit bit-vectors",
+           targets=["semantiva/execution/transport/in_memory.py:InMemorySemantivaTransport.publish", "semantiva/execution/transport/in_memory.py:InMemorySubscription.__iter__", "semantiva/execution/transport/in_memory.py:InMemorySemantivaTransport.__init__"]),
     ]
 
 
 def extra_coverage(results):
-    return {"schedules_executed": int(sum(int(r.get("paths_reached_assert") or 0) for r in results)), "scenarios": {k: v for k, v in SCENARIOS.items()},
+    b = [r for r in results if r.get("oid") == "C14.B"]
+    return {"b_sched": {"scenarios_decided_over_all_interleavings": len([r for r in b if r.get("status") == "discharged"]), "step_bounds_K": [r.get("K") for r in b], "conformance_runs_model_vs_real": int(sum(int(r.get("conformance_runs") or 0) for r in b)),
+                        "z3_queries": int(sum(int(r.get("queries") or 0) for r in b)), "z3_seconds": round(sum(float(r.get("solver_time_s") or 0) for r in b), 2)},
+            "schedules_executed": int(sum(int(r.get("paths_reached_assert") or 0) for r in results)), "scenarios": {k: v for k, v in SCENARIOS.items()},
             "states": max(1, int(sum(int(r.get("paths_reached_assert") or 0) for r in results))), "transitions": max(1, int(sum(int(r.get("paths") or 0) for r in results))), "traces_validated_against_impl": int(sum(int(r.get("paths_reached_assert") or 0) for r in results))}
